@@ -156,8 +156,12 @@ def gen_model(rng):
         sel.append(rng.choice(sel[2 * nv:] or sel))      # the same constraint object twice
     rng.shuffle(sel)
     objs = [i for i, o in enumerate(pool['objectives']) if opsim.obj_valid(o)]
-    return {'kind': 'op', 'model': pool, 'cons': sel, 'obj': rng.choice(objs), 'format': rng.choice(['dense', 'sparse']),
+    return {'kind': 'op', 'model': pool, 'cons': sel, 'obj': rng.choice(objs), 'format': rng.choice(['dense', 'sparse']), 'resolve': bool(rng.random() < 0.4),
             'n': sum(v['n'] for v in pool['variables']), 'p': 0, 'dims': {'l': len(sel), 'q': [], 's': []}}
+
+
+class RepeatSolveDiffers(Exception):
+    pass
 
 
 def solve_model(inst, options=None, solver='default'):
@@ -170,6 +174,14 @@ def solve_model(inst, options=None, solver='default'):
     if options is not None:
         kw['options'] = options
     prob.solve(inst.get('format', 'dense'), solver, **kw)
+    if inst.get('resolve'):
+        # the same op object solved again, now that its variables and multipliers hold values: the call is
+        # the same call, so is the result
+        first = O.bits({'status': prob.status, 'x': [v.value for v in vs], 'm': [c.multiplier.value for c in used]})
+        prob.solve(inst.get('format', 'dense'), solver, **(dict(kw, options=dict(options)) if options is not None else kw))
+        second = O.bits({'status': prob.status, 'x': [v.value for v in vs], 'm': [c.multiplier.value for c in used]})
+        if first != second:
+            raise RepeatSolveDiffers('solving the same op object a second time gave another result (status %r)' % prob.status)
     # without an optimal point the variables have no value and objective.value() has nothing to evaluate
     return {'status': prob.status, 'x': [v.value for v in vs], 'multipliers': [c.multiplier.value for c in used],
             'objective': prob.objective.value() if prob.status == 'optimal' else None}
@@ -729,6 +741,9 @@ def run_case(case, refs=None):
                 bump('probe.solve_preceded_by_modelling_noise_in_its_own_client')
             if o['kind'] == 'cap':
                 violation = V('termination', entry, '%s did not return within the global step cap (%d yield points in this call)' % (where, o['steps']))
+                break
+            if o['kind'] == 'exc' and o['type'] == 'RepeatSolveDiffers':
+                violation = V('repeat-solve-differs', entry, '%s: %s' % (where, o['msg']))
                 break
             exp = plan[ci][oi]
             eff, ref = exp['eff'], exp['ref']
